@@ -5,55 +5,12 @@ import Hw.Topo.Restrict
 import Hw.Topo.RestrictLemmas
 import Hw.Topo.Render
 import Hw.Topo.RenderLemmas
+import Hw.Topo.RenderOf
 import Hw.Topo.WF
 import Driver.Topo
 import Driver.Util
 namespace Driver.RestrictEng
 open Hw.Topo Hw.Topo.Restrict Driver
-
-/-! ### dump → tree -/
-
-def robjOf (o : Obj) : RObj :=
-  let a (i : Nat) : Int := (o.attrs[i]?).getD 0
-  { gp := o.gp, type := o.type, osidx := o.osidx,
-    cpuset := o.cpuset.getD 0, ccpuset := o.ccpuset.getD 0, nodeset := o.nodeset.getD 0, cnodeset := o.cnodeset.getD 0,
-    hasSets := o.cpuset.isSome,
-    gkind := if o.type == tGROUP then a 1 else 0, gsubkind := if o.type == tGROUP then a 2 else 0,
-    dmByte := if o.type == tGROUP then (a 3).toNat % 256 else 0 }
-
-structure Kids where
-  ns : List Tree := []
-  ms : List Tree := []
-  ios : List Tree := []
-  mis : List Tree := []
-deriving Inhabited
-
-/-- objects are in DFS order (children lists in list order), so folding from the right and prepending rebuilds the lists -/
-def buildTree (d : Dump) : Except String Tree :=
-  let n := d.objs.length
-  let init : Array Kids := Array.replicate n {}
-  let r := d.objs.foldr (fun (o : Obj) (acc : Except String (Array Kids × Option Tree)) =>
-    match acc with
-    | .error e => .error e
-    | .ok (arr, root) =>
-      if o.id ≥ n then .error "id-out-of-range" else
-      let k := arr[o.id]!
-      let t := Tree.node (robjOf o) k.ns k.ms k.ios k.mis
-      if o.parent < 0 then
-        if o.id == 0 then .ok (arr, some t) else .error ("orphan@" ++ toString o.id)
-      else
-        let p := o.parent.toNat
-        if p ≥ o.id then .error ("parent-not-before-child@" ++ toString o.id) else
-        let kp := arr[p]!
-        let kp := if isNormal o.type then { kp with ns := t :: kp.ns }
-                  else if isMemory o.type then { kp with ms := t :: kp.ms }
-                  else if isIO o.type then { kp with ios := t :: kp.ios }
-                  else { kp with mis := t :: kp.mis }
-        .ok (arr.set! p kp, root)) (.ok (init, none))
-  match r with
-  | .error e => .error e
-  | .ok (_, some t) => .ok t
-  | .ok (_, none) => .error "no-root"
 
 /-! ### rows compared -/
 
@@ -126,56 +83,8 @@ def levelsOfDump (d : Dump) : List (List Nat) :=
     | some l => l.objs.map (fun i => match d.obj? i with | some o => o.gp | none => 0)
     | none => [])
 
-/-! ### the renderer tie: render (tree) must equal the real dump as a whole -/
-
-def gpTable (d : Dump) : Array (Option Obj) :=
-  let n := (d.objs.foldl (fun m o => max m o.gp) 0) + 1
-  d.objs.foldl (fun (a : Array (Option Obj)) o => a.set! o.gp (some o)) (Array.replicate n none)
-
-def lookupGp (tbl : Array (Option Obj)) (gp : Nat) : Option Obj := (tbl[gp]?).getD none
-
-/-- carried fields: attributes / names / infos from `stat` (restrict never touches them), symmetric_subtree and total_memory
-    from `live` (recomputed by code that is not modelled here) -/
-def extraOf (stat live : Array (Option Obj)) (o : RObj) : Extra :=
-  let a := lookupGp stat o.gp
-  let b := lookupGp live o.gp
-  { symm := (b.map (·.symm)).getD 0, totalMem := (b.map (·.totalMem)).getD 0, attrs := (a.map (·.attrs)).getD [],
-    subtype := (a.map (·.subtype)).getD none, name := (a.map (·.name)).getD none, infos := (a.map (·.infos)).getD [] }
-
-def objDiff (m r : Obj) : String :=
-  let f (n : String) (b : Bool) : List String := if b then [] else [n]
-  "+".intercalate (
-    f "id" (m.id == r.id) ++ f "type" (m.type == r.type) ++ f "depth" (m.depth == r.depth) ++ f "lidx" (m.lidx == r.lidx) ++
-    f "osidx" (m.osidx == r.osidx) ++ f "gp" (m.gp == r.gp) ++ f "parent" (m.parent == r.parent) ++ f "rank" (m.rank == r.rank) ++
-    f "arity" (m.arity == r.arity) ++ f "marity" (m.marity == r.marity) ++ f "ioarity" (m.ioarity == r.ioarity) ++
-    f "miscarity" (m.miscarity == r.miscarity) ++ f "nextSib" (m.nextSib == r.nextSib) ++ f "prevSib" (m.prevSib == r.prevSib) ++
-    f "nextCousin" (m.nextCousin == r.nextCousin) ++ f "prevCousin" (m.prevCousin == r.prevCousin) ++
-    f "firstChild" (m.firstChild == r.firstChild) ++ f "lastChild" (m.lastChild == r.lastChild) ++ f "memFirst" (m.memFirst == r.memFirst) ++
-    f "ioFirst" (m.ioFirst == r.ioFirst) ++ f "miscFirst" (m.miscFirst == r.miscFirst) ++ f "symm" (m.symm == r.symm) ++
-    f "cpuset" (m.cpuset == r.cpuset) ++ f "ccpuset" (m.ccpuset == r.ccpuset) ++ f "nodeset" (m.nodeset == r.nodeset) ++
-    f "cnodeset" (m.cnodeset == r.cnodeset) ++ f "totalMem" (m.totalMem == r.totalMem) ++ f "attrs" (m.attrs == r.attrs) ++
-    f "children" (m.children == r.children) ++ f "subtype" (m.subtype == r.subtype) ++ f "name" (m.name == r.name) ++
-    f "infos" (m.infos == r.infos))
-
-/-- first difference between the rendered dump `m` and the real dump `r` -/
-def dumpDiff (m r : Dump) : Option String :=
-  if m == r then none else
-  if m.flags != r.flags || m.filters != r.filters || m.allowedCpuset != r.allowedCpuset || m.allowedNodeset != r.allowedNodeset then some "header"
-  else if m.depth != r.depth then some ("depth:model=" ++ toString m.depth)
-  else if m.root != r.root || m.nobjs != r.nobjs || m.objs.length != r.objs.length then some ("nobjs:model=" ++ toString m.nobjs)
-  else match (m.objs.zip r.objs).find? (fun (a, b) => a != b) with
-    | some (a, b) => some ("obj" ++ toString b.id ++ ":" ++ objDiff a b)
-    | none =>
-      if m.levels != r.levels then
-        match (m.levels.zip r.levels).find? (fun (a, b) => a != b) with
-        | some (a, _) => some ("level" ++ toString a.depth)
-        | none => some "levels-count"
-      else if m.typeDepths != r.typeDepths then some "typeDepths" else some "?"
-
-def hdrOf (d : Dump) : Hdr := ⟨d.flags, d.filters, d.allowedCpuset, d.allowedNodeset⟩
-
 def verdict (st : State) (c : Call) (bd : Dump) (braw : List (List String)) (ad : Dump) (araw : List (List String)) : String :=
-  match buildTree bd with
+  match treeOf bd with
   | .error e => "MODEL-INPUT-ERROR before-dump-is-not-a-tree:" ++ e
   | .ok tree =>
     let topo := topoOf bd tree
@@ -187,7 +96,7 @@ def verdict (st : State) (c : Call) (bd : Dump) (braw : List (List String)) (ad 
     let hyp := hyp ++ (match dumpDiff (render tree (hdrOf bd) (extraOf tb tb)) bd with
       | none => [] | some s => ["render-before:" ++ s]) ++
       -- hypothesis of the link theorems (C08_render_links): every well-formed topology has a typed tree
-      (if (typedT tree && isNormal tree.obj.type) || !(wfCheck bd).isEmpty then [] else ["hypothesis-typedT-fails-on-a-WF-before-dump"])
+      (if (typedT tree && puLeafT tree && isNormal tree.obj.type) || !(wfCheck bd).isEmpty then [] else ["hypothesis-typedT-fails-on-a-WF-before-dump"])
     let (topo', ret) := restrict topo c.set c.flags
     match ret with
     | .rootRemoved => "MODEL-UNDEFINED root-would-be-removed"
@@ -209,7 +118,7 @@ def verdict (st : State) (c : Call) (bd : Dump) (braw : List (List String)) (ad 
         (match dumpDiff (render topo'.tree ⟨bd.flags, bd.filters, some topo'.allowedCpu, some topo'.allowedNode⟩
                           (extraOf tb (gpTable ad))) ad with
           | none => [] | some s => ["render-after:" ++ s]) ++
-        (if (typedT topo'.tree && isNormal topo'.tree.obj.type) || !typedT tree then [] else ["hypothesis-typedT-not-preserved"])
+        (if (typedT topo'.tree && puLeafT topo'.tree && isNormal topo'.tree.obj.type) || !(typedT tree && puLeafT tree) then [] else ["hypothesis-typedT-not-preserved"])
       "ret=0 errno=ok" ++ (if probs.isEmpty then "" else " MISMATCH " ++ ",".intercalate probs)
 
 def step (st : State) (line : String) : State × String :=
